@@ -19,7 +19,7 @@ def main(run: Run) -> int:
         for s1 in range(2):
             jobs.append({"fn": "history", "globals": {"STEPS": 1, "MAXSIZE": 0, "NS": 2, "EDIT_SET": tuple(range(11)), "FIX": (o1, s1)}, "timeout": 300, "bound": "1 step (call x string x 11 in-place edits) + final parse (2 parsers x 2 strings)"})
     # two-step histories
-    es2 = tuple(range(11)) if thorough else (0, 1, 4, 7, 8, 9)
+    es2 = tuple(range(11)) if thorough else (0, 1, 4, 9)
     for o1 in range(4):
         for s1 in range(2):
             for o2 in range(4):
